@@ -437,6 +437,13 @@ func (pConn *PFCPConn) handleSessionModificationRequest(msg message.Message) (me
 		logger.PfcpLog.Errorf("failed to put PFCP session to store: %v", err)
 	}
 
+	// the tunnel endpoint IDs the UP chose for the removed PDRs can be handed out again
+	for _, p := range delPDRs {
+		if p.UPAllocateFteid {
+			upf.fteidGenerator.FreeID(p.tunnelTEID)
+		}
+	}
+
 	// Build response message
 	smres := message.NewSessionModificationResponse(0, /* MO?? <-- what's this */
 		0,                                    /* FO <-- what's this? */
